@@ -1,18 +1,27 @@
 """C05 - layer-rule verdicts follow the documented semantics, one unit per layer.
 
-  C05.R1  lowering: every LayerRule verb/access method delegates to its image under access->import, layers->modules; are_named lowers
-          every named layer to all of its module filters, preserving whether each is a regex           (rules/c05_lowering.py)
-  C05.R2  the layer mapping handed to the detector is rebuilt for all layers; lookups into the regex conversion map (built from the
-          rule's subjects and objects only) are total                                                   (rules/c05_matcher.py)
-  C05.R3  the same-layer filter covers every judgement on concrete 'other' dependencies                 (rules/c05_detector.py)
-  C05.R4  lenient grouping is keyed by the object-side module and satisfied by any realisation          (rules/c05_detector.py)
-  C05.R5  layer lookup by whole dotted components (F-NAME sites reachable from the layer lookup)
+  C05.R1  lowering (rules/c05_lowering.py): every LayerRule verb/access method delegates to its image under access->import,
+          layers->modules; layers_that binds the configured layer matcher to the architecture's layer mapping; are_named lowers
+          every named layer to *all* of its module filters, each with its own regex flag (or as filter objects of its own kind);
+          on the Rule side the flag selects ModuleNameRegexFilter vs ModuleNameFilter
+  C05.R2  matcher (rules/c05_matcher.py): the layer mapping handed to the detector is rebuilt for all layers; lookups into the regex
+          conversion map (built from the rule's subjects and objects only) are total; that map contains the conversions of both
+          sides on every path; nothing but the layer detector is built
+  C05.R3  detector (rules/c05_detector.py + c05_shapes.py): reported 'other' dependencies passed the same-layer filter, which drops
+          same-layer pairs and nothing else; every "is there any other access" decision is made on filtered pairs
+  C05.R4  a requirement is judged per layer: missing dependencies are reported only when no pair of the (object) layer is realised;
+          explicit pairs are grouped by the layer of the object-side module
+  C05.R5  layer lookup (rules/c05_names.py): F-NAME sites reachable from LayerMapping.get_layer_for_module_name compare whole dotted
+          components; every ancestor is considered, not only the direct parent
   C05.R6  closures created in a loop / comprehension bind the loop's variables at creation time (late-binding lint)
-  C05.R7  regex layers are resolved against the evaluable being judged                                  (rules/c05_matcher.py)
+  C05.R7  regex layers (conversion *and* rebuilt layer mapping) are resolved against the evaluable being judged: per evaluation a
+          fresh matcher is built or the resolution runs unconditionally
 
 All rules anchor on public API (LayerRule / Rule fluent methods, RuleViolations fields via rules/tables.py, LayerMapping.
-get_layer_for_module_name / all_layers, ModuleNameConverter.convert, the filter classes) and analyse *inline views* of the public
-entry points, so that extracting, inlining, renaming or moving private helpers does not change what the rules see.
+get_layer_for_module_name / all_layers, ModuleNameConverter.convert, the filter and detector classes) and analyse *devirtualised
+inline views* (rules/c05_views.py) of the public entry points, so that extracting, inlining, renaming, merging or moving private
+helpers does not change what the rules see.  engine/mutants/c05_variants.py holds ~150 variants (behaviour-preserving
+refactorings incl. 14 written by independent agents, and breaking edits on all of those shapes) the rules are tested against.
 """
 
 from __future__ import annotations
@@ -121,13 +130,14 @@ def late_binding_closures(repo: Repo) -> list[tuple[FuncInfo, ast.AST, ast.AST, 
 def run(repo: Repo) -> Result:
     res = Result("C05")
     res.explanation = (
-        "Decides the layer-rule mechanism structurally, on inline views of the public entry points: (R1) each LayerRule method delegates to the "
-        "documented Rule method and are_named lowers every named layer to all its module filters with their own regex flag, which selects the "
-        "filter class; (R2) the layer mapping given to the detector is rebuilt for all layers and lookups into the regex conversion map (built "
-        "from the rule's subjects/objects only) are total; (R3) every judgement on concrete 'other' dependencies is made on the same-layer-"
-        "filtered set; (R4) explicit pairs are grouped by the layer of the object-side module and a layer is satisfied by any realisation; (R5) "
-        "the layer of a module is found by whole dotted components; (R6) no closure created in a loop reads a loop variable late; (R7) regex "
-        "layers are resolved against the evaluable being judged."
+        "Decides the layer-rule mechanism structurally, on devirtualised inline views of the public entry points: (R1) each LayerRule method "
+        "delegates to the documented Rule method, layers_that binds the layer matcher to the layer mapping, are_named lowers every named layer "
+        "to all its module filters with their own regex flag, which selects the filter class; (R2) the layer mapping given to the detector is "
+        "rebuilt for all layers, lookups into the regex conversion map are total, the map covers both sides of the rule and only the layer "
+        "detector is built; (R3) reported 'other' dependencies and every decision on them use the same-layer-filtered set, and the filter "
+        "drops nothing else; (R4) explicit pairs are grouped by the layer of the object-side module and a layer is satisfied by any "
+        "realisation; (R5) the layer of a module is found by whole dotted components over all its ancestors; (R6) no closure created in a "
+        "loop reads a loop variable late; (R7) regex layers are resolved against the evaluable being judged."
     )
     res.not_decided = "verdicts over all partitions of modules into layers (needs the values of the graph searches); that the module filter built from a pair carries the pair's own identifier."
     res.trusted_base = ["C01 (module-rule dispatch the layer rule is lowered to)", "rules/tables.py bucket wiring", "engine inline views / guards"]
